@@ -62,6 +62,9 @@ impl CounterCollection {
         let new_count = counter.count();
         let info = self.info_mut(counter.known_kind());
 
+        // Override a previously-set input-based counter of the same kind.
+        info.count_input = None;
+
         if let Some(old_count) = info.counts.first_mut() {
             *old_count = new_count;
         } else {
